@@ -18,11 +18,11 @@ func init() {
 	property("C10",
 		"Static conformance of command pass-through: (a) every iteration of the argument loop either appends the (constant-substituted) literal of the current token, closes the argument, or takes one inline arm, and then advances by exactly one token; the loop ends at the matching ')' with parenthesis depth counted on '(' / ')', and a non-empty last argument is flushed; (b) a command is rendered as TAB name [SPACE args joined by ', '] NEWLINE from constant formats; (c) statements of a chunk are rendered in order, one render per element; (d) the command name is the token literal, never constant-substituted. Hoisted-argument patching is covered by C06.a/b/c. Emit hands every top-level statement to its emitter and writes the result (C10.f); every non-nil top-level statement is kept (C10.e); the depth counter only counts (C10.a); token literals are source text (C19.f); positions never decide parsing (C16.d).",
 		[]string{"go/ssa lowering is faithful to the source"},
-		"C10.a", "C10.b", "C10.c", "C10.d", "C10.e", "C06.a", "C06.b", "C06.c", "C12.a", "C13.a", "C15.d", "C01.b", "C08.a", "C18.g", "C01.h", "C19.e", "C10.f", "C19.f", "C16.d", "C13.d", "C08.e")
+		"C10.a", "C10.b", "C10.c", "C10.d", "C10.e", "C06.a", "C06.b", "C06.c", "C12.a", "C13.a", "C15.d", "C01.b", "C08.a", "C18.g", "C01.h", "C19.e", "C10.f", "C19.f", "C16.d", "C13.d", "C08.e", "C10.g")
 	property("C11",
 		"Static conformance of AutoVar handling: (a) an AutoVar operand is recognised as an identifier configured in autovar_commands, parsed with the ordinary command parser, and its result var is the configured name or the argument at the configured position (bounds-checked), taken verbatim; (b) the parsed command is attached as the preamble of exactly the leaf whose operand is that result var (type VAR), and for switch it is placed immediately before the switch statement; (c) the leaf renders its preamble with the ordinary command renderer exactly once, before the comparison, iff present; each leaf owns one chunk and loops re-enter at the condition's entry chunk (C02.e, C01.e). The command is attached exactly when its result var is the operand (C11.b); the shipped command_config.json keys are the JSON names of the decoded structs (C11.d).",
 		[]string{"scheme argument of DESIGN §4 C11"},
-		"C11.a", "C11.b", "C11.c", "C02.e", "C02.i", "C06.c", "C10.e", "C01.e", "C02.d", "C01.h", "C11.d")
+		"C11.a", "C11.b", "C11.c", "C02.e", "C02.i", "C06.c", "C10.e", "C01.e", "C02.d", "C01.h", "C11.d", "C10.g")
 
 	register(&Rule{ID: "C09.a", Doc: "terminator table and append-iff-missing", Floor: 5, Run: c09a})
 	register(&Rule{ID: "C09.b", Doc: "recorded / returned text is terminator-formatted with its own string type", Floor: 6, Run: c09b})
@@ -1360,7 +1360,50 @@ func c10e(c *Ctx) {
 			}
 		}
 		c.Check(stored, fn.Name()+"/appended-list-is-kept", c.W.FuncPos(fn), "the extended list is stored in the block / returned", "the list extended with the parsed statements is not the one kept")
+		// ... and nothing else ever is: every store to the block's list is the empty list it
+		// starts with or such an append (no pass that rewrites the list afterwards)
+		for i, st := range storesToField(fn, "ast", "BlockStatement", "Statements") {
+			okSt := false
+			if call, ok := st.Val.(*ssa.Call); ok && isAppend(call) {
+				okSt = true
+			} else if emptyListValue(st.Val) {
+				okSt = true
+			}
+			c.Check(okSt, fmt.Sprintf("%s/block-list-only-grows-by-parsed-statements#%d", fn.Name(), i), c.W.Pos(st.Pos()), "the block's list is set to the empty list or extended by parsed statements", "the block's statement list is set to "+pretty(c.term(fn, st.Val))+": it must be exactly the statements parsed, in order (a pass that rewrites the list can drop labels and statements that are reachable through a goto)")
+		}
 	}
+	// no other function of the parser stores a block's list
+	blockFns := map[string]bool{"parseBlockStatement": true, "parseSwitchBlockStatement": true, "parsePoryswitchStatements": true}
+	for _, g := range c.W.FuncsOf("parser") {
+		if isTestFunc(c.W, g) || blockFns[g.Name()] {
+			continue
+		}
+		for i, st := range storesToField(g, "ast", "BlockStatement", "Statements") {
+			if emptyListValue(st.Val) {
+				continue
+			}
+			c.Bad(fmt.Sprintf("%s/block-list-stored-elsewhere#%d", g.Name(), i), c.W.Pos(st.Pos()), g.Name()+" sets a block's statement list to "+pretty(c.term(g, st.Val))+": the list is built by the block parsers from the statements parsed and by nobody else")
+		}
+	}
+}
+
+// emptyListValue: nil, make(T, 0…) or an empty slice literal.
+func emptyListValue(v ssa.Value) bool {
+	switch x := v.(type) {
+	case *ssa.Const:
+		return x.IsNil()
+	case *ssa.MakeSlice:
+		k, ok := x.Len.(*ssa.Const)
+		return ok && k.Int64() == 0
+	case *ssa.Slice:
+		a, ok := x.X.(*ssa.Alloc)
+		if !ok {
+			return false
+		}
+		arr, isArr := a.Type().Underlying().(*types.Pointer).Elem().Underlying().(*types.Array)
+		return isArr && arr.Len() == 0
+	}
+	return false
 }
 
 // stripLit removes literal l from every conjunction of d; false when some conjunction lacks it.
